@@ -32,10 +32,10 @@ def plan(tier, seed):
     for v in ("c", "py"):
         jobs.append({"variant": v, "part": "nfkc", "params": {}})
         jobs.append({"variant": v, "part": "ascii", "params": {}})
-    n = 8 if thorough else 4
+    n = 16 if thorough else 4
     for s in range(n):
-        jobs.append({"variant": "c" if s % 2 else "py", "part": "ipv6", "shard": s, "nshards": n, "params": {"addrs": 200 if thorough else 40}})
-        jobs.append({"variant": "c" if s % 2 else "py", "part": "labels", "shard": s, "nshards": n, "params": {"n": 60000 if thorough else 5000}})
+        jobs.append({"variant": "c" if s % 2 else "py", "part": "ipv6", "shard": s, "nshards": n, "params": {"addrs": 600 if thorough else 40}})
+        jobs.append({"variant": "c" if s % 2 else "py", "part": "labels", "shard": s, "nshards": n, "params": {"n": 200000 if thorough else 5000}})
     return jobs
 
 
